@@ -46,6 +46,31 @@ CHECKS["C11"] = ("stateful property-based testing (Hypothesis RuleBasedStateMach
     "Histories of reconfigurations (circuit reassignment incl. same components with different heralding, in-place circuit edits, parameters, input, source, backend, post-selection, detector) interleaved with distribution reads, seeded sampling, sample() and analyses; every read must equal what a fresh object returns (distribution, seeded samples, result attributes, or the same exception type).",
     "Differential oracle (fresh object) - exactness of the fresh object's answers is decided by C04-C07.", "3/C11")
 
+CHECKS["C12"] = ("property-based testing (Hypothesis): generated qiskit circuits converted and compared, amplitude by amplitude (own permanent), with qiskit's Operator up to one common scalar; refusals classified",
+    "Generated qiskit circuits over the full supported gate set on 2-4 qubits (any qubit pairs/triples, either order, both post-selection modes, forced patterns of three-qubit gates followed by two-qubit gates and swaps between entangling gates); accepted amplitudes for every basis input must be k x Operator(qc) with the stated |k|^2, nothing accepted outside the qubit subspace; a refusal must be a ValueError in a legitimate class.",
+    "qiskit.quantum_info.Operator is the reference; own permanent; at most 3 heralded gates per circuit.", "3/C12")
+CHECKS["C13"] = ("exhaustive enumeration of the finite gate/option/mode-pair table plus property-based testing (Hypothesis) of rotation angles; amplitudes from own permanent vs Kronecker-algebra gate matrices",
+    "Every named gate and option, all 360 (1680) SWAP mode-pair placements and the invalid options are enumerated completely; rotation angles are generated; each amplitude matrix must be k x the named matrix with the stated |k|^2, heralded gates must not leak outside the qubit subspace, Simulator agrees on all basis inputs.",
+    "Standard gate definitions; own permanent; finite part exhaustive, angles sampled.", "3/C13")
+CHECKS["C14"] = ("property-based testing (Hypothesis): structured and random unitaries / heralded lossless circuits mapped through Reck; reconstruction, phase range, error-model bounds and seed reproducibility asserted",
+    "Generated unitaries of 11 structured kinds and products (exact and near zeros), generated heralded circuits, generated error models (Constant/Gaussian/TopHat per quantity) and seeds; mapped circuit structure, unitary equality, herald equality, phase range, bounds of every drawn value, identical circuit for identical seed, (sub-)unitarity.",
+    "Lossless circuits only; Gaussian bounds keep >= 0.3 sigma each side; phase interval closed at float(2 pi).", "3/C14")
+CHECKS["C15"] = ("property-based testing (Hypothesis): generated dual-rail preparation circuits, exact noiseless experiment callback (own permanent), reconstruction compared with Kronecker-algebra state; requested circuits matched bijectively to measurement settings",
+    "Generated base circuits on 1-3 qubits (arbitrary local unitaries, library gates, post-selected and heralded entangling gates); density matrix, Hermiticity, trace, fidelity, the exact set of requested circuits (3^n, bijective, base followed by basis changes), base circuit unchanged, and a second process() after an in-place edit; thorough tier varies PYTHONHASHSEED per shard.",
+    "Exact outcome weights are passed as counts; post-selected gates are only followed by local gates.", "3/C15")
+CHECKS["C16"] = ("property-based testing (Hypothesis): generated one- and two-qubit unitaries realised with library gates; LI / MLE / gate-fidelity results on exact noiseless data vs choi_from_unitary, its independent definition and the average-gate-fidelity formula",
+    "Generated products of arbitrary single-qubit unitaries, CZ/CNOT (both orientations, post-selected and heralded) and SWAP; LI Choi entry-wise, MLE positivity / trace preservation / fidelity >= 0.99, gate fidelity against V and against generated other targets, choi_from_unitary against its definition.",
+    "V from plain Kronecker algebra; exact callback from own permanent; MLE read at the property's 0.99.", "3/C16")
+CHECKS["C17"] = ("property-based testing (Hypothesis): generated result containers and mapping sequences vs a Python dictionary model",
+    "Generated SimulationResult / SamplingResult contents (distinct states, zeros, empty rows, complex amplitudes) and sequences of 1-3 mappings applied to the previous result and to the untouched original; indexing consistency, model agreement per image, conserved totals, source object unchanged, refusal for amplitudes, key errors.",
+    "Pure-Python model of the per-mode functions; 1e-12 relative tolerance.", "3/C17")
+CHECKS["C18"] = ("property-based testing (Hypothesis) plus exhaustive sweep over small states: State / AnnotatedState algebra vs list model, aliasing probes, herald insert/remove round trip, unit conversions, seeded random matrices",
+    "Generated occupation lists, label lists, slices, herald dictionaries in any key order and position, dB / decimal values, seeds and dimensions; equality/hash, concatenation, merge laws, slicing, count consistency, rejection of mutation, absence of aliasing through every accessor, herald round trip, conversion inverses, validity and reproducibility of random unitaries/permutations.",
+    "Integer occupations only; State(list) sharing the caller's list is out of scope.", "3/C18")
+CHECKS["C19"] = ("property-based testing (Hypothesis): generated circuits x generated display options through both back-ends; no exception, well-formed output, circuit snapshot unchanged, DisplayError for invalid options",
+    "Generated circuits of every constructible shape (groups, nested heralded groups, empty barriers, parameters with unicode/long labels, descending and non-adjacent beam splitters, qubit-library gates) with all option combinations; svg output must parse as XML, mpl must return (Figure, Axes), the circuit and its parameters must be unchanged, wrong label counts and unknown types must raise DisplayError.",
+    "Nothing is rasterised; visual correctness of the drawing is not asserted.", "3/C19")
+
 NOT_YET = {}
 
 
